@@ -12,14 +12,22 @@
                       (implicit_field, optional_like, explicit_field, plain_msg_field, plain_msg)
      Model/WellFormed.v  wf_schema;  Spec/C06Wire.v std_builtins_b (class table starts with betterproto's own classes)
 
-   from_dict (the fourth way of setting) is modelled by another property; its column of the matrix is checked on the
-   implementation by harness/props/c06.py only.
+   from_dict (the fourth way of setting): Model/Json.v from_dict_cls (Cls.from_dict(d)) and from_dict_inst (m.from_dict(d)),
+   the model C04 validates; Model/C06Dict.v is the vocabulary for reading the mapping the way _from_dict_init does
+   (key_index, dict_lookup = the value of the LAST item assigning a field, given_order = the order of the setattr calls of
+   the instance form, singular_json = not None / not a list, emitted_once_in = emitted as exactly one record).
+   The theorems are in the second half of this file (names C06_..._from_dict...); proofs in the Proofs/C06Dict files.
+   Quirk the theorems make explicit: when a mapping gives two members of one oneof group, the class form keeps the LAST IN
+   DECLARATION ORDER (the constructor), the instance form the LAST IN DICT ORDER (setattr); each emits exactly its winner.
    Message.is_set of an implicit-presence field flips after a mere read (DESIGN K4): proto3 gives such a field no presence,
    so every statement below is about explicit-presence fields (C14 owns observer purity). *)
 From BP Require Import Base.Prelude Model.Types Model.Varint Model.Object Model.Eq Model.Encode Model.Decode.
-From BP Require Import Model.WellFormed Model.C06Obs Model.Canon.
+From BP Require Import Model.WellFormed Model.C06Obs Model.Canon Model.Json Model.C06Dict.
 From BP Require Import Spec.Varint Spec.C06Wire Spec.C06Zero.
+From BP Require Proofs.C04Def Model.C07Ops.
 From BP Require Import Proofs.C06SpecP Proofs.C06EncP Proofs.C06PresP Proofs.C06WaysP Proofs.C06FinalP Proofs.C06ZeroP.
+From BP Require Import Proofs.C06DictKwP Proofs.C06DictStateP Proofs.C06DictClsP Proofs.C06DictInstP Proofs.C06DictRecP Proofs.C06DictFinalP.
+From BP Require Import Proofs.C06DictOnceP Proofs.C06DictZeroP.
 
 (* bytes(m) is the concatenation of one contribution per field, in declaration order, then the unknown bytes;
    [here sc cur i x f] is the contribution of field i holding raw value x *)
@@ -248,3 +256,552 @@ Proof.
   cbv zeta. split; [vm_compute; reflexivity|]. split; [left; split; [reflexivity|left; reflexivity]|].
   split; [|reflexivity]. split; [reflexivity|]. split; [reflexivity|]. exists PyInt. split; [reflexivity|discriminate].
 Qed.
+
+(* ================================================================================================================== *)
+(* way 4: from_dict.  Cls.from_dict(d) = from_dict_cls sc c d,  m.from_dict(d) = from_dict_inst sc m d  (Model/Json.v). *)
+(* ================================================================================================================== *)
+
+(* only a mapping is accepted; the keys to_dict emits (either casing) address their own field (C04Def.keys_ok is C04's /
+   C19's decidable condition on the schema: keys pairwise distinct and resolved by field_name_by_key / safe_snake_case) *)
+Theorem C06_from_dict_mapping : forall sc c o j m,
+  (from_dict_cls sc c j = Ok m -> exists kvs, j = JObj kvs) /\
+  (from_dict_inst sc o j = Ok m -> exists kvs, j = JObj kvs).
+Proof. intros. split; [apply from_dict_needs_mapping|apply from_dict_inst_needs_mapping]. Qed.
+Print Assumptions C06_from_dict_mapping.
+
+Theorem C06_from_dict_key : forall cs sc c i f v,
+  C04Def.keys_ok cs sc = true -> nth_error (cfields (get_class sc c)) i = Some f ->
+  key_index (cfields (get_class sc c)) (JStr (key_of_field cs f)) = Some i /\
+  (is_jnull v = false -> dict_lookup (cfields (get_class sc c)) [(JStr (key_of_field cs f), v)] i = Some v).
+Proof. intros. split; [apply key_addresses_field|apply single_item_lookup]; assumption. Qed.
+Print Assumptions C06_from_dict_key.
+
+(* ---- class form: an explicit-presence field the mapping gives (value not None, not a list) - even its default - is
+        emitted, reported set, and (oneof member, no later member of its group given too) selected ---- *)
+Theorem C06_explicit_emit_from_dict : forall sc c kvs m i f v,
+  wf_schema sc = true -> from_dict_cls sc c (JObj kvs) = Ok m ->
+  nth_error (cfields (get_class sc c)) i = Some f -> explicit_field f ->
+  dict_lookup (cfields (get_class sc c)) kvs i = Some v -> singular_json v = true ->
+  (forall g, fgroup f = Some g ->
+     forall k f', (i < k)%nat -> nth_error (cfields (get_class sc c)) k = Some f' -> fgroup f' = Some g ->
+                  dict_lookup (cfields (get_class sc c)) kvs k = None) ->
+  emitted_in sc m i f /\ is_set sc m i = true /\ value_not_none sc m i = true /\
+  (forall g, fgroup f = Some g -> which_one_of m g = Some i) /\
+  is_value (raw_at m i) /\ singular_value (raw_at m i).
+Proof. exact emit_from_dict_cls. Qed.
+Print Assumptions C06_explicit_emit_from_dict.
+
+(* ---- instance form, on any object of the right shape: the same; a oneof member is selected when no member of its
+        group is assigned after it (given_order = the order of the setattr calls) ---- *)
+Theorem C06_explicit_emit_from_dict_inst : forall sc o kvs m i f v,
+  wf_schema sc = true -> shape_ok sc o = true -> from_dict_inst sc o (JObj kvs) = Ok m ->
+  nth_error (cfields (get_class sc (ocls o))) i = Some f -> explicit_field f ->
+  dict_lookup (cfields (get_class sc (ocls o))) kvs i = Some v -> singular_json v = true ->
+  (forall g, fgroup f = Some g ->
+     exists pre post, given_order (cfields (get_class sc (ocls o))) kvs = pre ++ i :: post /\
+                      forall k, In k post -> in_group (get_class sc (ocls o)) g k = false) ->
+  emitted_in sc m i f /\ is_set sc m i = true /\ value_not_none sc m i = true /\
+  (forall g, fgroup f = Some g -> which_one_of m g = Some i) /\
+  is_value (raw_at m i) /\ singular_value (raw_at m i).
+Proof. exact emit_from_dict_inst. Qed.
+Print Assumptions C06_explicit_emit_from_dict_inst.
+
+(* ---- "emitted" is "emitted as exactly ONE record with the field's number and wire type", for every way of setting:
+        in any object state where the field holds a value and (oneof) is selected.  Length-delimited kinds (string, bytes,
+        message, wrapper, Timestamp / Duration) for any value, varint / fixed-width kinds for a value in the declared range
+        (outside it the varint of the value is not a legal one).  That no OTHER contribution carries this number is the
+        encoder legality theorem of C02 (C02_encode_legal). ---- *)
+Theorem C06_explicit_one_record : forall sc cur i x f h,
+  1 <= fnum f < 2 ^ 29 -> fmap f = None ->
+  explicit_kind cur i f -> is_value x -> singular_value x ->
+  (base_wire_type (fty f) = 2 \/ (fwraps f = None /\ scalar_in_range (fty f) x = true)) ->
+  here sc cur i x f = Ok h -> Zlength h < 2 ^ 35 ->
+  exists r, is_record r h /\ rnum r = fnum f /\ rwt r = base_wire_type (fty f).
+Proof. exact explicit_one_record. Qed.
+Print Assumptions C06_explicit_one_record.
+
+Theorem C06_emitted_once : forall sc o i f,
+  wf_schema sc = true -> nth_error (cfields (get_class sc (ocls o))) i = Some f -> explicit_field f ->
+  (forall g, fgroup f = Some g -> which_one_of o g = Some i) ->
+  is_value (raw_at o i) -> singular_value (raw_at o i) ->
+  (base_wire_type (fty f) = 2 \/ (fwraps f = None /\ scalar_in_range (fty f) (raw_at o i) = true)) ->
+  emitted_in sc o i f -> emitted_once_in sc o i f.
+Proof. exact emitted_once. Qed.
+Print Assumptions C06_emitted_once.
+
+(* a wrapper-typed field set to the ZERO of its wrapped type (through any of the four ways: the statement is about the
+   state) is the empty wrapper message: its tag, then the length byte 00 *)
+Theorem C06_wrapper_zero_record : forall sc cur i x f h w t wt after rb,
+  1 <= fnum f < 2 ^ 29 -> fty f = TMessage -> fgroup f = None -> fwraps f = Some w -> fhint f = HOptional t ->
+  gen.Tables.wrapper_value_type w <> None -> zero_record w x = Some (wt, after, rb) ->
+  here sc cur i x f = Ok h ->
+  is_record (mkR (fnum f) 2 0 []) h /\ exists key, h = key ++ [x00].
+Proof. exact wrapper_zero_record. Qed.
+Print Assumptions C06_wrapper_zero_record.
+
+(* ---- a field the mapping does not give (no item addresses it with a value other than None) ---- *)
+(* class form: left at its dataclass default: nothing emitted, not reported set, not selected *)
+Theorem C06_absent_from_dict : forall sc c kvs m i f,
+  wf_schema sc = true -> from_dict_cls sc c (JObj kvs) = Ok m ->
+  nth_error (cfields (get_class sc c)) i = Some f -> explicit_field f ->
+  dict_lookup (cfields (get_class sc c)) kvs i = None ->
+  here sc (ocur m) i (raw_at m i) f = Ok [] /\ is_set sc m i = false /\
+  (optional_like f -> value_not_none sc m i = false) /\
+  (forall g, fgroup f = Some g -> which_one_of m g <> Some i).
+Proof. exact absent_from_dict_cls. Qed.
+Print Assumptions C06_absent_from_dict.
+
+Theorem C06_absent_group_from_dict : forall sc c kvs m g,
+  from_dict_cls sc c (JObj kvs) = Ok m ->
+  (forall k f, nth_error (cfields (get_class sc c)) k = Some f -> fgroup f = Some g ->
+               dict_lookup (cfields (get_class sc c)) kvs k = None) ->
+  which_one_of m g = None.
+Proof. exact no_member_from_dict_cls. Qed.
+Print Assumptions C06_absent_group_from_dict.
+
+(* instance form: an ungrouped field (optional, wrapper, sub-message, implicit) that is not given is exactly as before *)
+Theorem C06_absent_from_dict_inst : forall sc o kvs m i f,
+  wf_schema sc = true -> shape_ok sc o = true -> from_dict_inst sc o (JObj kvs) = Ok m ->
+  nth_error (cfields (get_class sc (ocls o))) i = Some f -> fgroup f = None ->
+  dict_lookup (cfields (get_class sc (ocls o))) kvs i = None ->
+  raw_at m i = raw_at o i /\
+  here sc (ocur m) i (raw_at m i) f = here sc (ocur o) i (raw_at o i) f /\
+  is_set sc m i = is_set sc o i /\ read sc m i = read sc o i /\ value_not_none sc m i = value_not_none sc o i /\
+  child_on_wire m i = child_on_wire o i.
+Proof. exact absent_from_dict_inst. Qed.
+Print Assumptions C06_absent_from_dict_inst.
+
+(* ... a oneof group of which no member is given keeps its selection and its members *)
+Theorem C06_absent_group_from_dict_inst : forall sc o kvs m g,
+  wf_schema sc = true -> shape_ok sc o = true -> from_dict_inst sc o (JObj kvs) = Ok m ->
+  (forall k, In k (given_order (cfields (get_class sc (ocls o))) kvs) -> in_group (get_class sc (ocls o)) g k = false) ->
+  which_one_of m g = which_one_of o g /\
+  forall i f, nth_error (cfields (get_class sc (ocls o))) i = Some f -> fgroup f = Some g -> raw_at m i = raw_at o i.
+Proof. exact no_member_from_dict_inst. Qed.
+Print Assumptions C06_absent_group_from_dict_inst.
+
+(* ... and Cls().from_dict(d): whatever else d gives, an explicit-presence field it does not give is unset and unemitted *)
+Theorem C06_absent_from_dict_fresh : forall sc c kvs m i f,
+  wf_schema sc = true -> from_dict_inst sc (new sc c) (JObj kvs) = Ok m ->
+  nth_error (cfields (get_class sc c)) i = Some f -> explicit_field f ->
+  dict_lookup (cfields (get_class sc c)) kvs i = None ->
+  here sc (ocur m) i (raw_at m i) f = Ok [] /\ is_set sc m i = false /\
+  (optional_like f -> value_not_none sc m i = false) /\
+  (forall g, fgroup f = Some g -> which_one_of m g <> Some i).
+Proof. exact absent_from_dict_fresh. Qed.
+Print Assumptions C06_absent_from_dict_fresh.
+
+(* ---- the flag: whatever the mapping holds (even nothing), both forms raise _serialized_on_wire of the message ---- *)
+Theorem C06_flag_from_dict : forall sc c o j m,
+  (from_dict_cls sc c j = Ok m -> osow m = true) /\ (from_dict_inst sc o j = Ok m -> osow m = true).
+Proof. intros. split; [apply flag_from_dict_cls|apply flag_from_dict_inst]. Qed.
+Print Assumptions C06_flag_from_dict.
+
+(* a plain sub-message given as a mapping - even {} - (anything but None / a list): the child was built by the class form,
+   its flag is up, serialized_on_wire(m.f) is True and the field is emitted (tag, wire type 2) *)
+Theorem C06_flag_from_dict_child : forall sc c kvs m i f v,
+  wf_schema sc = true -> from_dict_cls sc c (JObj kvs) = Ok m ->
+  nth_error (cfields (get_class sc c)) i = Some f -> plain_msg f ->
+  dict_lookup (cfields (get_class sc c)) kvs i = Some v -> singular_json v = true ->
+  child_on_wire m i = true /\
+  forall all, enc_obj sc m = Ok all ->
+    exists pre h post, all = pre ++ h ++ post /\ here sc (ocur m) i (raw_at m i) f = Ok h /\
+                       starts_with_tag (fnum f) 2 h.
+Proof. exact child_from_dict_cls. Qed.
+Print Assumptions C06_flag_from_dict_child.
+
+Theorem C06_flag_from_dict_child_inst : forall sc o kvs m i f v,
+  wf_schema sc = true -> shape_ok sc o = true -> from_dict_inst sc o (JObj kvs) = Ok m ->
+  nth_error (cfields (get_class sc (ocls o))) i = Some f -> plain_msg f ->
+  dict_lookup (cfields (get_class sc (ocls o))) kvs i = Some v -> singular_json v = true ->
+  child_on_wire m i = true /\
+  forall all, enc_obj sc m = Ok all ->
+    exists pre h post, all = pre ++ h ++ post /\ here sc (ocur m) i (raw_at m i) f = Ok h /\
+                       starts_with_tag (fnum f) 2 h.
+Proof. exact child_from_dict_inst. Qed.
+Print Assumptions C06_flag_from_dict_child_inst.
+
+(* one not given: flag down, nothing emitted (class form; for the instance form C06_absent_from_dict_inst says the child
+   and its flag are the ones the object had) *)
+Theorem C06_flag_from_dict_child_absent : forall sc c kvs m i f,
+  wf_schema sc = true -> from_dict_cls sc c (JObj kvs) = Ok m ->
+  nth_error (cfields (get_class sc c)) i = Some f -> plain_msg_field f ->
+  dict_lookup (cfields (get_class sc c)) kvs i = None ->
+  child_on_wire m i = false /\ here sc (ocur m) i (raw_at m i) f = Ok [].
+Proof. exact child_absent_from_dict_cls. Qed.
+Print Assumptions C06_flag_from_dict_child_absent.
+
+(* ---- implicit presence: a plain scalar given a value that converts to its default contributes no bytes; bytes(m) is
+        what it would be had the field not been set ---- *)
+Theorem C06_implicit_skip_from_dict : forall sc c kvs m i f v x,
+  from_dict_cls sc c (JObj kvs) = Ok m ->
+  nth_error (cfields (get_class sc c)) i = Some f -> implicit_field f ->
+  dict_lookup (cfields (get_class sc c)) kvs i = Some v ->
+  value_from_json (from_dict_cls sc) sc f v = Ok x -> is_default sc f x = true ->
+  raw_at m i = x /\ here sc (ocur m) i (raw_at m i) f = Ok [] /\
+  enc_obj sc m = enc_obj sc (set_raw m i PPlaceholder).
+Proof. exact implicit_skip_from_dict_cls. Qed.
+Print Assumptions C06_implicit_skip_from_dict.
+
+Theorem C06_implicit_skip_from_dict_inst : forall sc o kvs m i f v x,
+  wf_schema sc = true -> shape_ok sc o = true -> from_dict_inst sc o (JObj kvs) = Ok m ->
+  nth_error (cfields (get_class sc (ocls o))) i = Some f -> implicit_field f ->
+  dict_lookup (cfields (get_class sc (ocls o))) kvs i = Some v ->
+  value_from_json (from_dict_cls sc) sc f v = Ok x -> is_default sc f x = true ->
+  raw_at m i = x /\ here sc (ocur m) i (raw_at m i) f = Ok [] /\
+  enc_obj sc m = enc_obj sc (set_raw m i PPlaceholder).
+Proof. exact implicit_skip_from_dict_inst. Qed.
+Print Assumptions C06_implicit_skip_from_dict_inst.
+
+(* ---- a fresh message, the remaining clauses: the independent default is defined for every well-formed ungrouped field
+        (so C06_fresh's equation is never Err = Err there; a oneof member reads as AttributeError on both sides);
+        nothing is reported set; from_dict of the empty mapping is a fresh message whose flag is raised ---- *)
+Theorem C06_fresh_default_total : forall sc c i f,
+  wf_schema sc = true -> nth_error (cfields (get_class sc c)) i = Some f -> fgroup f = None ->
+  exists v, proto3_default sc f = Ok v /\ read sc (new sc c) i = Ok v.
+Proof.
+  intros sc c i f W Hf G.
+  destruct (proto3_default_total sc _ f (wf_field_of sc c f W (nth_error_In _ _ Hf)) G) as (v & E).
+  exists v. split; [exact E|]. rewrite <- E. apply fresh; assumption.
+Qed.
+Print Assumptions C06_fresh_default_total.
+
+Theorem C06_fresh_unset : forall sc c,
+  osow (new sc c) = false /\ ounk (new sc c) = [] /\
+  (forall g, which_one_of (new sc c) g = None) /\
+  (forall i, is_set sc (new sc c) i = false) /\
+  (forall i, child_on_wire (new sc c) i = false).
+Proof. exact fresh_unset. Qed.
+Print Assumptions C06_fresh_unset.
+
+Theorem C06_fresh_from_dict : forall sc c m,
+  wf_schema sc = true -> from_dict_cls sc c (JObj []) = Ok m ->
+  osow m = true /\ enc_obj sc m = Ok [] /\
+  forall i f, nth_error (cfields (get_class sc c)) i = Some f -> read sc m i = proto3_default sc f.
+Proof. exact fresh_from_dict. Qed.
+Print Assumptions C06_fresh_from_dict.
+
+(* ---- "exactly one record" after each of the four ways (one_record_kind: length-delimited kinds for any value,
+        varint / fixed-width kinds for a value in the declared range) ---- *)
+Theorem C06_explicit_once_construct : forall sc c kw i f o,
+  wf_schema sc = true ->
+  nth_error (cfields (get_class sc c)) i = Some f -> explicit_field f ->
+  o = construct sc c kw ->
+  is_value (raw_at o i) -> singular_value (raw_at o i) ->
+  (forall g, fgroup f = Some g ->
+     forall k f', (i < k)%nat -> nth_error (cfields (get_class sc c)) k = Some f' -> fgroup f' = Some g ->
+                  is_sentinel f' (raw_at o k) = true) ->
+  one_record_kind f (raw_at o i) ->
+  emitted_once_in sc o i f.
+Proof. exact once_after_construct. Qed.
+Print Assumptions C06_explicit_once_construct.
+
+Theorem C06_explicit_once_setattr : forall sc o i f v,
+  wf_schema sc = true ->
+  nth_error (cfields (get_class sc (ocls o))) i = Some f ->
+  length (oraw o) = length (cfields (get_class sc (ocls o))) -> length (ocur o) = cngroups (get_class sc (ocls o)) ->
+  explicit_field f -> is_value v -> singular_value v -> one_record_kind f v ->
+  emitted_once_in sc (setattr sc o i v) i f.
+Proof. exact once_after_setattr. Qed.
+Print Assumptions C06_explicit_once_setattr.
+
+Theorem C06_explicit_once_parse_optional : forall sc c bs rs m j f,
+  wf_schema sc = true -> std_builtins_b sc = true ->
+  is_records rs bs -> parse sc c bs = Ok m ->
+  nth_error (cfields (get_class sc c)) j = Some f -> optional_like f ->
+  has_record f rs = true -> one_record_kind f (raw_at m j) ->
+  emitted_once_in sc m j f.
+Proof. exact once_after_parse_optional. Qed.
+Print Assumptions C06_explicit_once_parse_optional.
+
+Theorem C06_explicit_once_parse_oneof : forall sc c bs rs m g i f,
+  wf_schema sc = true -> std_builtins_b sc = true ->
+  is_records rs bs -> parse sc c bs = Ok m ->
+  nth_error (cfields (get_class sc c)) i = Some f ->
+  last_member (get_class sc c) g rs = Some i -> one_record_kind f (raw_at m i) ->
+  emitted_once_in sc m i f.
+Proof. exact once_after_parse_oneof. Qed.
+Print Assumptions C06_explicit_once_parse_oneof.
+
+Theorem C06_explicit_once_from_dict : forall sc c kvs m i f v,
+  wf_schema sc = true -> from_dict_cls sc c (JObj kvs) = Ok m ->
+  nth_error (cfields (get_class sc c)) i = Some f -> explicit_field f ->
+  dict_lookup (cfields (get_class sc c)) kvs i = Some v -> singular_json v = true ->
+  (forall g, fgroup f = Some g ->
+     forall k f', (i < k)%nat -> nth_error (cfields (get_class sc c)) k = Some f' -> fgroup f' = Some g ->
+                  dict_lookup (cfields (get_class sc c)) kvs k = None) ->
+  one_record_kind f (raw_at m i) ->
+  emitted_once_in sc m i f.
+Proof. exact once_from_dict_cls. Qed.
+Print Assumptions C06_explicit_once_from_dict.
+
+Theorem C06_explicit_once_from_dict_inst : forall sc o kvs m i f v,
+  wf_schema sc = true -> shape_ok sc o = true -> from_dict_inst sc o (JObj kvs) = Ok m ->
+  nth_error (cfields (get_class sc (ocls o))) i = Some f -> explicit_field f ->
+  dict_lookup (cfields (get_class sc (ocls o))) kvs i = Some v -> singular_json v = true ->
+  (forall g, fgroup f = Some g ->
+     exists pre post, given_order (cfields (get_class sc (ocls o))) kvs = pre ++ i :: post /\
+                      forall k, In k post -> in_group (get_class sc (ocls o)) g k = false) ->
+  one_record_kind f (raw_at m i) ->
+  emitted_once_in sc m i f.
+Proof. exact once_from_dict_inst. Qed.
+Print Assumptions C06_explicit_once_from_dict_inst.
+
+(* ---- the DEFAULT given in the mapping, concretely: json_zero t is the JSON form of the proto3 zero of the scalar type t
+        (64-bit integers as "0", bytes as "", ...; enums are covered by the general theorems above).
+        An explicit-presence scalar given it: exactly one record, its tag followed by the zero payload; a wrapper field
+        given the zero of its wrapped type: its tag and the length byte 00; an implicit-presence scalar: no bytes. ---- *)
+Theorem C06_explicit_zero_from_dict : forall sc c kvs m i f,
+  wf_schema sc = true -> from_dict_cls sc c (JObj kvs) = Ok m ->
+  nth_error (cfields (get_class sc c)) i = Some f -> explicit_field f -> fwraps f = None ->
+  tmem (fty f) scalar_ptypes = true -> fty f <> TEnum ->
+  dict_lookup (cfields (get_class sc c)) kvs i = Some (json_zero (fty f)) ->
+  (forall g, fgroup f = Some g ->
+     forall k f', (i < k)%nat -> nth_error (cfields (get_class sc c)) k = Some f' -> fgroup f' = Some g ->
+                  dict_lookup (cfields (get_class sc c)) kvs k = None) ->
+  forall all, enc_obj sc m = Ok all ->
+    exists pre h post wt after rb, all = pre ++ h ++ post /\ here sc (ocur m) i (raw_at m i) f = Ok h /\
+      zero_record (fty f) (raw_at m i) = Some (wt, after, rb) /\
+      is_record (mkR (fnum f) wt 0 rb) h /\ wt = base_wire_type (fty f).
+Proof. exact explicit_zero_from_dict_cls. Qed.
+Print Assumptions C06_explicit_zero_from_dict.
+
+Theorem C06_explicit_zero_from_dict_inst : forall sc o kvs m i f,
+  wf_schema sc = true -> shape_ok sc o = true -> from_dict_inst sc o (JObj kvs) = Ok m ->
+  nth_error (cfields (get_class sc (ocls o))) i = Some f -> explicit_field f -> fwraps f = None ->
+  tmem (fty f) scalar_ptypes = true -> fty f <> TEnum ->
+  dict_lookup (cfields (get_class sc (ocls o))) kvs i = Some (json_zero (fty f)) ->
+  (forall g, fgroup f = Some g ->
+     exists pre post, given_order (cfields (get_class sc (ocls o))) kvs = pre ++ i :: post /\
+                      forall k, In k post -> in_group (get_class sc (ocls o)) g k = false) ->
+  forall all, enc_obj sc m = Ok all ->
+    exists pre h post wt after rb, all = pre ++ h ++ post /\ here sc (ocur m) i (raw_at m i) f = Ok h /\
+      zero_record (fty f) (raw_at m i) = Some (wt, after, rb) /\
+      is_record (mkR (fnum f) wt 0 rb) h /\ wt = base_wire_type (fty f).
+Proof. exact explicit_zero_from_dict_inst. Qed.
+Print Assumptions C06_explicit_zero_from_dict_inst.
+
+Theorem C06_wrapper_zero_from_dict : forall sc c kvs m i f w,
+  wf_schema sc = true -> from_dict_cls sc c (JObj kvs) = Ok m ->
+  nth_error (cfields (get_class sc c)) i = Some f -> optional_like f -> fwraps f = Some w ->
+  dict_lookup (cfields (get_class sc c)) kvs i = Some (json_zero w) ->
+  forall all, enc_obj sc m = Ok all ->
+    exists pre h post, all = pre ++ h ++ post /\ here sc (ocur m) i (raw_at m i) f = Ok h /\
+      is_record (mkR (fnum f) 2 0 []) h /\ exists key, h = key ++ [x00].
+Proof. exact wrapper_zero_from_dict_cls. Qed.
+Print Assumptions C06_wrapper_zero_from_dict.
+
+Theorem C06_wrapper_zero_from_dict_inst : forall sc o kvs m i f w,
+  wf_schema sc = true -> shape_ok sc o = true -> from_dict_inst sc o (JObj kvs) = Ok m ->
+  nth_error (cfields (get_class sc (ocls o))) i = Some f -> optional_like f -> fwraps f = Some w ->
+  dict_lookup (cfields (get_class sc (ocls o))) kvs i = Some (json_zero w) ->
+  forall all, enc_obj sc m = Ok all ->
+    exists pre h post, all = pre ++ h ++ post /\ here sc (ocur m) i (raw_at m i) f = Ok h /\
+      is_record (mkR (fnum f) 2 0 []) h /\ exists key, h = key ++ [x00].
+Proof. exact wrapper_zero_from_dict_inst. Qed.
+Print Assumptions C06_wrapper_zero_from_dict_inst.
+
+Theorem C06_implicit_zero_from_dict : forall sc c kvs m i f,
+  wf_schema sc = true -> from_dict_cls sc c (JObj kvs) = Ok m ->
+  nth_error (cfields (get_class sc c)) i = Some f -> implicit_field f ->
+  tmem (fty f) scalar_ptypes = true -> fty f <> TEnum ->
+  dict_lookup (cfields (get_class sc c)) kvs i = Some (json_zero (fty f)) ->
+  here sc (ocur m) i (raw_at m i) f = Ok [] /\ enc_obj sc m = enc_obj sc (set_raw m i PPlaceholder).
+Proof. exact implicit_zero_from_dict_cls. Qed.
+Print Assumptions C06_implicit_zero_from_dict.
+
+Theorem C06_implicit_zero_from_dict_inst : forall sc o kvs m i f,
+  wf_schema sc = true -> shape_ok sc o = true -> from_dict_inst sc o (JObj kvs) = Ok m ->
+  nth_error (cfields (get_class sc (ocls o))) i = Some f -> implicit_field f ->
+  tmem (fty f) scalar_ptypes = true -> fty f <> TEnum ->
+  dict_lookup (cfields (get_class sc (ocls o))) kvs i = Some (json_zero (fty f)) ->
+  here sc (ocur m) i (raw_at m i) f = Ok [] /\ enc_obj sc m = enc_obj sc (set_raw m i PPlaceholder).
+Proof. exact implicit_zero_from_dict_inst. Qed.
+Print Assumptions C06_implicit_zero_from_dict_inst.
+
+(* ---- the two forms ARE the from_dict operations of C07's alphabet (Model/C07Ops.v: constructor call with the flag raised;
+        flag, then a sequence of attribute assignments) applied to the keyword arguments _from_dict_init computes ---- *)
+Theorem C06_from_dict_is_C07_op : forall sc c o j m,
+  (from_dict_cls sc c j = Ok m <-> exists kw, from_dict_init sc c j = Ok kw /\ m = C07Ops.from_dict_cls sc c kw) /\
+  (from_dict_inst sc o j = Ok m <-> exists kw, from_dict_init sc (ocls o) j = Ok kw /\ m = C07Ops.from_dict_inst sc o kw).
+Proof. exact from_dict_is_c07_op. Qed.
+Print Assumptions C06_from_dict_is_C07_op.
+
+(* way 2 in combination: after ANY sequence of attribute assignments on an object of the right shape (kw_get = the value
+   assigned last to the field), the field is emitted provided no member of its oneof group is assigned after it *)
+Theorem C06_explicit_emit_setattrs : forall sc o kw i f x,
+  wf_schema sc = true -> shape_ok sc o = true ->
+  nth_error (cfields (get_class sc (ocls o))) i = Some f -> explicit_field f ->
+  kw_get i kw = Some x -> is_value x -> singular_value x ->
+  (forall g, fgroup f = Some g ->
+     exists pre post, map fst kw = pre ++ i :: post /\
+                      forall k, In k post -> in_group (get_class sc (ocls o)) g k = false) ->
+  let m := fold_left (fun o' iv => setattr sc o' (fst iv) (snd iv)) kw o in
+  emitted_in sc m i f /\ is_set sc m i = true /\ value_not_none sc m i = true /\
+  (forall g, fgroup f = Some g -> which_one_of m g = Some i).
+Proof. exact emit_after_setattrs. Qed.
+Print Assumptions C06_explicit_emit_setattrs.
+
+(* ---- non-vacuity of the from_dict theorems (ex_schema above: x implicit, o optional, a / b oneof g0, w Int32Value, s message) ---- *)
+Example C06_from_dict_hypotheses_satisfiable :
+  wf_schema ex_schema = true /\ C04Def.keys_ok CAMEL ex_schema = true /\ C04Def.keys_ok SNAKE ex_schema = true /\
+  shape_ok ex_schema (new ex_schema 11) = true.
+Proof. vm_compute. repeat split. Qed.
+
+(* {"x": 0, "o": 0, "b": 0, "w": 0, "s": {}}: every kind given its DEFAULT value *)
+Definition ex_dict : list (json * json) :=
+  [(JStr [x78], JInt 0); (JStr [x6f], JInt 0); (JStr [x62], JInt 0); (JStr [x77], JInt 0); (JStr [x73], JObj [])].
+
+Example C06_from_dict_nonvacuous :
+  let fs := cfields (get_class ex_schema 11) in
+  map (dict_lookup fs ex_dict) (seq 0 6) = [Some (JInt 0); Some (JInt 0); None; Some (JInt 0); Some (JInt 0); Some (JObj [])] /\
+  given_order fs ex_dict = [0; 1; 3; 4; 5]%nat /\
+  singular_json (JInt 0) = true /\ singular_json (JObj []) = true /\
+  exists m, from_dict_cls ex_schema 11 (JObj ex_dict) = Ok m /\
+            from_dict_inst ex_schema (new ex_schema 11) (JObj ex_dict) = Ok m /\
+    (* x = 0 is skipped; o, b, w, s are emitted, each as tag + zero payload *)
+    enc_obj ex_schema m = Ok [x10; x00; x20; x00; x2a; x00; x32; x00] /\
+    map (is_set ex_schema m) (seq 0 6) = [true; true; false; true; true; true] /\
+    which_one_of m 0 = Some 3%nat /\ value_not_none ex_schema m 1 = true /\ value_not_none ex_schema m 4 = true /\
+    child_on_wire m 5 = true /\ osow m = true /\
+    value_from_json (from_dict_cls ex_schema) ex_schema (nth 0 fs (plain_field [] 0 TBool)) (JInt 0) = Ok (PInt 0) /\
+    is_default ex_schema (nth 0 fs (plain_field [] 0 TBool)) (PInt 0) = true /\
+    scalar_in_range TInt32 (raw_at m 1) = true /\ base_wire_type (fty (nth 4 fs (plain_field [] 0 TBool))) = 2 /\
+    (* the values of ex_dict ARE the JSON zeros of the field types; the kinds promise one record *)
+    json_zero TInt32 = JInt 0 /\ json_zero TInt64 = JStr [x30] /\
+    one_record_kind (nth 1 fs (plain_field [] 0 TBool)) (raw_at m 1) /\ one_record_kind (nth 4 fs (plain_field [] 0 TBool)) (raw_at m 4) /\
+    Zlength [x10; x00; x20; x00; x2a; x00; x32; x00] < 2 ^ 35.
+Proof.
+  cbv zeta. split; [vm_compute; reflexivity|]. split; [vm_compute; reflexivity|]. split; [reflexivity|]. split; [reflexivity|].
+  eexists. split; [vm_compute; reflexivity|]. split; [vm_compute; reflexivity|].
+  repeat (split; [vm_compute; reflexivity|]).
+  split; [right; split; vm_compute; reflexivity|]. split; [left; reflexivity|]. vm_compute. reflexivity.
+Qed.
+
+(* the presence classes the theorems ask for, on ex_schema's fields *)
+Example C06_from_dict_kinds :
+  let fs := cfields (get_class ex_schema 11) in
+  let d := plain_field [] 0 TBool in
+  implicit_field (nth 0 fs d) /\ explicit_field (nth 1 fs d) /\ explicit_field (nth 2 fs d) /\ explicit_field (nth 3 fs d) /\
+  explicit_field (nth 4 fs d) /\ plain_msg (nth 5 fs d) /\
+  gen.Tables.wrapper_value_type TInt32 <> None /\ zero_record TInt32 (PInt 0) = Some (0, [x00], []).
+Proof.
+  cbv zeta. split; [split; [reflexivity|]; split; [reflexivity|]; exists PyInt; split; [reflexivity|discriminate]|].
+  split; [left; split; [reflexivity|left; reflexivity]|].
+  split; [right; exists 0%nat; reflexivity|]. split; [right; exists 0%nat; reflexivity|].
+  split; [left; split; [reflexivity|right; exists TInt32, PyInt; split; reflexivity]|].
+  split; [split; [repeat split|exists 11%nat; reflexivity]|].
+  split; [discriminate|reflexivity].
+Qed.
+
+(* the empty mapping and a mapping that gives nothing but None: nothing set, nothing emitted, flag raised *)
+Example C06_from_dict_absent :
+  exists m, from_dict_cls ex_schema 11 (JObj [(JStr [x6f], JNull)]) = Ok m /\
+            from_dict_cls ex_schema 11 (JObj []) = Ok m /\
+            map (dict_lookup (cfields (get_class ex_schema 11)) [(JStr [x6f], JNull)]) (seq 0 6) = repeat None 6 /\
+            enc_obj ex_schema m = Ok [] /\ map (is_set ex_schema m) (seq 0 6) = repeat false 6 /\
+            which_one_of m 0 = None /\ child_on_wire m 5 = false /\ osow m = true.
+Proof. eexists. split; [vm_compute; reflexivity|]. vm_compute. repeat split. Qed.
+
+(* {"b": 0, "a": ""}: two members of one oneof group.  The class form selects b (last in declaration order), the instance
+   form a (last in dict order); each emits exactly the member it selects, with its default value *)
+Definition ex_dict_two : list (json * json) := [(JStr [x62], JInt 0); (JStr [x61], JStr [])].
+Example C06_from_dict_two_members :
+  given_order (cfields (get_class ex_schema 11)) ex_dict_two = [3; 2]%nat /\
+  exists mc mi, from_dict_cls ex_schema 11 (JObj ex_dict_two) = Ok mc /\
+                from_dict_inst ex_schema (new ex_schema 11) (JObj ex_dict_two) = Ok mi /\
+                which_one_of mc 0 = Some 3%nat /\ enc_obj ex_schema mc = Ok [x20; x00] /\
+                which_one_of mi 0 = Some 2%nat /\ enc_obj ex_schema mi = Ok [x1a; x00].
+Proof.
+  split; [vm_compute; reflexivity|]. eexists. eexists. split; [vm_compute; reflexivity|]. split; [vm_compute; reflexivity|].
+  vm_compute. repeat split.
+Qed.
+
+(* a wrapper field set to the default of its wrapped type through each of the four ways: always tag 2a, length 00 *)
+Example C06_wrapper_default_four_ways :
+  enc_obj ex_schema (construct ex_schema 11 [(4%nat, PInt 0)]) = Ok [x2a; x00] /\
+  enc_obj ex_schema (setattr ex_schema (new ex_schema 11) 4 (PInt 0)) = Ok [x2a; x00] /\
+  (exists m, parse ex_schema 11 [x2a; x00] = Ok m /\ raw_at m 4 = PInt 0 /\ enc_obj ex_schema m = Ok [x2a; x00]) /\
+  (exists m, from_dict_cls ex_schema 11 (JObj [(JStr [x77], JInt 0)]) = Ok m /\ raw_at m 4 = PInt 0 /\
+             enc_obj ex_schema m = Ok [x2a; x00]) /\
+  (exists m, from_dict_inst ex_schema (new ex_schema 11) (JObj [(JStr [x77], JInt 0)]) = Ok m /\ raw_at m 4 = PInt 0 /\
+             enc_obj ex_schema m = Ok [x2a; x00]).
+Proof.
+  split; [vm_compute; reflexivity|]. split; [vm_compute; reflexivity|].
+  split; [eexists; split; [vm_compute; reflexivity|]; vm_compute; split; reflexivity|].
+  split; eexists; (split; [vm_compute; reflexivity|]); vm_compute; split; reflexivity.
+Qed.
+
+(* a fresh message of a class with a map, repeated fields (scalar, string, message), Timestamp, Duration, enum, double, bytes,
+   bool, a wrapper, a proto3 optional and a oneof member: every field reads as its proto3 default, bytes() is empty *)
+Definition ex_schema_kinds : schema :=
+  mkS (builtin_classes ++
+       [mkC [mkF [x6d] 1 TMap (Some (TString, TInt32)) None None false (HDict PyStr PyInt) 12;
+             mkF [x72] 2 TInt32 None None None false (HList PyInt) 0;
+             mkF [x74] 3 TMessage None None None false (HPlain PyDatetime) 0;
+             mkF [x64] 4 TMessage None None None false (HPlain PyTimedelta) 0;
+             mkF [x65] 5 TEnum None None None false (HPlain (PyEnum 0)) 0;
+             mkF [x66] 6 TDouble None None None false (HPlain PyFloat) 0;
+             mkF [x79] 7 TBytes None None None false (HPlain PyBytes) 0;
+             mkF [x6b] 8 TBool None None None false (HPlain PyBool) 0;
+             mkF [x71] 9 TString None None None false (HList PyStr) 0;
+             mkF [x6e] 10 TMessage None None None false (HList (PyMsg 11)) 0;
+             mkF [x75] 11 TMessage None None (Some TString) false (HOptional PyStr) 0;
+             mkF [x7a] 12 TString None None None true (HOptional PyStr) 0;
+             mkF [x70] 13 TString None (Some 0%nat) None false (HPlain PyStr) 0] 1;
+        mkC [mkF [x6b; x65; x79] 1 TString None None None false (HPlain PyStr) 0;
+             mkF [x76; x61; x6c; x75; x65] 2 TInt32 None None None false (HPlain PyInt) 0] 0])
+      [mkE [([x5a], 0); ([x41], 1)]].
+
+Example C06_fresh_every_kind :
+  wf_schema ex_schema_kinds = true /\
+  enc_obj ex_schema_kinds (new ex_schema_kinds 11) = Ok [] /\
+  map (read ex_schema_kinds (new ex_schema_kinds 11)) (seq 0 13) =
+    [Ok (PDict []); Ok (PList []); Ok (PDatetime 0); Ok (PTimedelta 0); Ok (PInt 0); Ok (PFloat 0); Ok (PBytes []);
+     Ok (PBool false); Ok (PList []); Ok (PList []); Ok PNone; Ok PNone; Err EAttribute] /\
+  map (proto3_default ex_schema_kinds) (cfields (get_class ex_schema_kinds 11)) =
+    map (read ex_schema_kinds (new ex_schema_kinds 11)) (seq 0 13).
+Proof. vm_compute. repeat split. Qed.
+
+(* implicit-presence scalars given their JSON zero ({"f": 0.0, "y": "", "k": false}) on a class full of other kinds:
+   nothing is written; the same fields given non-zero values are written *)
+Example C06_implicit_zero_nonvacuous :
+  let fs := cfields (get_class ex_schema_kinds 11) in
+  let d := [(JStr [x66], json_zero TDouble); (JStr [x79], json_zero TBytes); (JStr [x6b], json_zero TBool)] in
+  C04Def.keys_ok CAMEL ex_schema_kinds = true /\
+  map (dict_lookup fs d) [5; 6; 7]%nat = [Some (JFloat 0); Some (JStr []); Some (JBool false)] /\
+  forallb (fun i => tmem (fty (nth i fs (plain_field [] 0 TBool))) scalar_ptypes) [5; 6; 7]%nat = true /\
+  implicit_field (nth 5 fs (plain_field [] 0 TBool)) /\
+  (exists m, from_dict_cls ex_schema_kinds 11 (JObj d) = Ok m /\ enc_obj ex_schema_kinds m = Ok [] /\ osow m = true) /\
+  (exists m, from_dict_cls ex_schema_kinds 11 (JObj [(JStr [x6b], JBool true)]) = Ok m /\
+             enc_obj ex_schema_kinds m = Ok [x40; x01]).
+Proof.
+  cbv zeta. split; [vm_compute; reflexivity|]. split; [vm_compute; reflexivity|]. split; [vm_compute; reflexivity|].
+  split; [split; [reflexivity|]; split; [reflexivity|]; exists PyFloat; split; [reflexivity|discriminate]|].
+  split; eexists; (split; [vm_compute; reflexivity|]); vm_compute; repeat split.
+Qed.
+
+(* ---- "... or something was assigned inside it": m.sub.x = v on a DIRECT child raises the child's flag, so the child is
+        emitted (C06_submessage), even when v is a default; through deeper lazily created paths it is not (K12 above) ---- *)
+Theorem C06_flag_assign_inside : forall sc o j i v o',
+  length (oraw o) = length (cfields (get_class sc (ocls o))) ->
+  assign_path sc o [j] i v = Ok o' ->
+  exists ch, read sc o j = Ok (PMsg ch) /\ raw_at o' j = PMsg (setattr sc ch i v) /\
+             (forall fi, nth_error (cfields (get_class sc (ocls ch))) i = Some fi -> child_on_wire o' j = true).
+Proof. exact flag_assign_inside. Qed.
+Print Assumptions C06_flag_assign_inside.
+
+(* m = Inner(); m.rec.x = 0: serialized_on_wire(m.rec) is True and the (empty) child is emitted: 1a 00 *)
+Example C06_assign_inside_nonvacuous :
+  exists m, assign_path k12_schema (new k12_schema 11) [1%nat] 0 (PInt 0) = Ok m /\
+            child_on_wire m 1 = true /\ enc_obj k12_schema m = Ok [x1a; x00].
+Proof. eexists. split; [vm_compute; reflexivity|]. vm_compute. split; reflexivity. Qed.
+
+(* a sequence of assignments: o = 0, b = 0, a = "", w = 0 (a after b: a wins the group) *)
+Example C06_setattrs_nonvacuous :
+  let kw := [(1%nat, PInt 0); (3%nat, PInt 0); (2%nat, PStr []); (4%nat, PInt 0)] in
+  let m := fold_left (fun o' iv => setattr ex_schema o' (fst iv) (snd iv)) kw (new ex_schema 11) in
+  kw_get 2 kw = Some (PStr []) /\ map fst kw = [1; 3]%nat ++ 2%nat :: [4%nat] /\
+  in_group (get_class ex_schema 11) 0 4 = false /\
+  which_one_of m 0 = Some 2%nat /\ enc_obj ex_schema m = Ok [x10; x00; x1a; x00; x2a; x00].
+Proof. cbv zeta. vm_compute. repeat split. Qed.
